@@ -51,16 +51,18 @@ def _safe_call(fn, case):
 
 
 def _work_range(args):
-    lo, hi, want_sample = args
+    lo, hi, want_sample, epc = args
     space, fn = _CUR
-    n = nt = 0
+    n = nt = ex = 0
     outs = set()
     viols = []
     nviol = 0
     sample = None
     for i in range(lo, hi):
         case = space[i]
-        nontriv, outcome, vs = _safe_call(fn, case)
+        r = _safe_call(fn, case)
+        nontriv, outcome, vs = r[0], r[1], r[2]
+        ex += r[3] if len(r) > 3 else epc
         n += 1
         if nontriv:
             nt += 1
@@ -73,7 +75,7 @@ def _work_range(args):
                     viols.append((i, case, v))
         if want_sample and sample is None and (nontriv or i == hi - 1):
             sample = case
-    return n, nt, outs, viols, nviol, sample
+    return n, nt, outs, viols, nviol, sample, ex
 
 
 def _work_bfs(args):
@@ -139,9 +141,9 @@ class Ctx:
         nchunks = max(1, min(size, nproc * 8))
         bounds = [(size * k) // nchunks for k in range(nchunks + 1)]
         want = set(self.rng.sample(range(nchunks), min(3, nchunks)))
-        tasks = [(bounds[k], bounds[k + 1], k in want) for k in range(nchunks)
+        tasks = [(bounds[k], bounds[k + 1], k in want, execs_per_case) for k in range(nchunks)
                  if bounds[k + 1] > bounds[k]]
-        n = nt = nviol = 0
+        n = nt = nviol = nex = 0
         outs: set = set()
         done_all = True
         results: Iterable
@@ -152,8 +154,9 @@ class Ctx:
             pool = mp.get_context("fork").Pool(nproc)
             results = pool.imap_unordered(_work_range, tasks)
         try:
-            for (cn, cnt, couts, cviols, cnviol, sample) in results:
+            for (cn, cnt, couts, cviols, cnviol, sample, cex) in results:
                 n += cn
+                nex += cex
                 nt += cnt
                 outs |= couts
                 nviol += cnviol
@@ -173,7 +176,7 @@ class Ctx:
         st = {"stratum": name, "engine": "E1/E3 exhaustive enumeration", "cases": n,
               "space_size": size, "complete": done_all and n == size,
               "nontrivial": nt, "distinct_outcomes": len(outs),
-              "impl_executions": n * execs_per_case, "violations": nviol,
+              "impl_executions": nex, "violations": nviol,
               "wall_s": round(time.time() - t, 2), "bound": note}
         self.strata.append(st)
         self.log(f"stratum {name}: {n}/{size} cases, nontrivial={nt}, outcomes={len(outs)}, "
